@@ -409,6 +409,17 @@ def dual_averaging(run, it, only_search=False):
 # variance adapter
 
 
+def _trans_stats(ctx):
+    """statistics of the transition that produced the position: the documented estimator is over ALL positions seen, whatever the transition
+    reported (rejections, divergences and integrator errors leave the chain at a position that still counts)"""
+    k = ctx.choose(3, "trans_stats")
+    if k == 0:
+        return None
+    if k == 1:
+        return {"accept_stat": 0.5, "n_step": 3}
+    return {"accept_stat": 0.0, "n_step": 1, "diverging": True, "convergence_error": True, "non_reversible_step": True}
+
+
 def variance(run, it):
     cls = "OnlineVarianceMetricAdapter"
     for m in ("update", "finalize", "_regularize_var_est"):
@@ -423,7 +434,7 @@ def variance(run, it):
         st = {"iter": n, "mean": Cell(mean), "sum_diff_sq": Cell(m2)}
         pos = Cell(x)
         cs = Opaque("chain_state", pos=pos)
-        ex.call(ex.getattr(ad, "update"), [st, cs, None, Opaque("transition")], {})
+        ex.call(ex.getattr(ad, "update"), [st, cs, _trans_stats(ctx), Opaque("transition")], {})
         tag = P + cls + ".update"
         n1 = z3.ToReal(n + 1)
         nr = z3.ToReal(n)
@@ -594,7 +605,7 @@ def covariance(run, it, tier):
         C = [[z3.Real(f"C_{a}{b}") for b in "ij"] for a in "ij"]
         st = {"iter": n, "mean": CVec(*mean), "sum_diff_outer": CMat(C)}
         cs = Opaque("chain_state", pos=CVec(*x))
-        ex.call(ex.getattr(ad, "update"), [st, cs, None, Opaque("transition")], {})
+        ex.call(ex.getattr(ad, "update"), [st, cs, _trans_stats(ctx), Opaque("transition")], {})
         tag = P + cls + ".update"
         n1, nr = z3.ToReal(n + 1), z3.ToReal(n)
         m1 = st["mean"].c
